@@ -46,13 +46,16 @@ class _RaisingText:
         return f'<RaisingText {self.exc.__name__}>'
 
 
-FS_OPS = ['V0', 'V1', 'V2', 'V3', 'V-alt', 'V-shared', 'V-replaced', 'V-kw', 'A-import', 'A-create', 'A-file',
+FS_OPS = ['V0', 'V1', 'V2', 'V3', 'V-alt', 'V-shared', 'V-replaced', 'V-kw', 'V-nested', 'A-import', 'A-create', 'A-file', 'A-prefix',
           'F-enc', 'F-port', 'F-shared', 'F-late', 'F-mc', 'F-prefix-type', 'F-origin', 'F-text', 'F-text-base']
-FS_VALID = FS_OPS[:11]
-FS_FAIL = FS_OPS[11:]
+FS_VALID = FS_OPS[:13]
+FS_FAIL = FS_OPS[13:]
 # A-...: the caller ASSIGNS a field of the (mutable) configuration object 'V0' and builds it again - facilities origin
-# import / create, another source file name; V-replaced: a ports configuration derived from V0's with dataclasses.replace;
-# V-kw: ports named like C++ / Python keywords (`default`, `register`, `pass`)
+# import / create, another source file name; A-prefix: the caller changes the namespace-prefix OBJECT of configuration 'V1' in
+# place (last identifier replaced) and builds V1; V-replaced: a ports configuration derived from V0's with dataclasses.replace;
+# V-kw: ports named like C++ / Python keywords (`default`, `register`, `pass`); V-nested: configuration V0 whose creator text is
+# an object that, WHILE it is rendered, builds another shell (V1, import) with another Builder and then answers 'me' - the
+# result must be the one of V0
 
 _MODELS = []
 
@@ -101,6 +104,32 @@ def fs_desc(which):
     raise KeyError(which)
 
 
+_NESTED_WORLD = [None]
+
+
+class _NestedBuildText:
+    """User text that is computed lazily - by building a sibling shell with the library - while the outer build renders it."""
+
+    __slots__ = ()       # (no attributes: the world it builds from is looked up, so that snapshots of the configuration stop here)
+
+    def __init__(self, world):
+        _NESTED_WORLD[0] = world
+
+    def __str__(self):
+        from dznpy.adv_shell import Builder  # pylint: disable=import-outside-toplevel
+        import contextlib  # pylint: disable=import-outside-toplevel
+        import io  # pylint: disable=import-outside-toplevel
+        with contextlib.redirect_stdout(io.StringIO()):
+            Builder().build(_NESTED_WORLD[0].cfgs['V1'])
+        return 'me'
+
+    def __repr__(self):
+        return '<NestedBuildText>'
+
+    def __deepcopy__(self, memo):
+        return self
+
+
 class FsWorld:
     def __init__(self):
         from dznpy.scoping import ns_ids_t  # pylint: disable=import-outside-toplevel
@@ -130,6 +159,7 @@ class FsWorld:
             'F-text': cfg(0, create, copyright=_RaisingText(_Boom)),
             'F-text-base': cfg(0, imp, creator_info=_RaisingText(_BaseBoom)),
         }
+        self.cfgs['V-nested'] = cfg(0, create, creator_info=_NestedBuildText(self))
         import dataclasses  # pylint: disable=import-outside-toplevel
         other_req = B.mk_ports_cfg(dict(create, requires=[['r2'], 'REMAINING'])).requires
         self.cfgs['V-replaced'] = cfg(0, create, dataclasses.replace(self.cfgs['V0'].ports_cfg, requires=other_req))
@@ -145,6 +175,10 @@ class FsWorld:
             cfg.facilities_origin = FacilitiesOrigin.CREATE
         elif op == 'A-file':
             cfg.dezyne_filename = 'elsewhere/Other_Name.dzn' if cfg.dezyne_filename != 'elsewhere/Other_Name.dzn' else 'x/Third.dzn'
+        elif op == 'A-prefix':
+            cfg = self.cfgs['V1']
+            items = cfg.support_files_ns_prefix.items
+            items[-1] = 'Changed' if items[-1] != 'Changed' else 'Again'
         return cfg
 
     def snaps(self, per_key=False):
@@ -171,6 +205,9 @@ def fs_set_override(value):
     old = text_gen.DEFAULT_INDENT_NR_SPACES
     text_gen.DEFAULT_INDENT_NR_SPACES = 4 if value is None else value
     return old
+
+
+STATE_CHANGES = []     # (attribute, history prefix) of every observed change of module-level state since it was last cleared
 
 
 FS_CHILD = r"""
@@ -203,14 +240,14 @@ def fs_child_reference(job):
 def fs_references():
     assigns = [o for o in FS_OPS if o.startswith('A-')]
     keys = [o for o in FS_OPS if not o.startswith('A-')] + assigns + [f'{a}+{b}' for a in assigns for b in assigns] + \
-           [f'{a}+V0' for a in assigns] + [f'{a}+{b}+V0' for a in assigns for b in assigns]
+           [f'{a}+{v}' for a in assigns for v in ('V0', 'V1')] + [f'{a}+{b}+{v}' for a in assigns for b in assigns for v in ('V0', 'V1')]
     return dict(pmap(fs_child_reference, [(op, ov) for op in keys for ov in (None, 2)]))
 
 
 def fs_histories(level):
     """'reduced': every history of <= 2 operations, every [failure, the same failure, valid], every [failure, another
     failure, V0 | V1].
-    'quick': + every [valid, failure, valid] and [F, F, F', V] for the same failure twice.
+    'quick': + every [V, failure, V'] over the first four valid builds and [F, F, F', V] for the same failure twice.
     'thorough': + every history of length 3 with a failure in it."""
     for a in FS_OPS:
         yield [a]
@@ -223,11 +260,11 @@ def fs_histories(level):
     else:
         for f in FS_FAIL:
             for g in FS_FAIL:
-                for v in (FS_VALID if (level != 'reduced' or f == g) else FS_VALID[:2]):
+                for v in (FS_VALID if f == g else FS_VALID[:2]):
                     yield [f, g, v]
             if level != 'reduced':
-                for v in FS_VALID:
-                    for v2 in FS_VALID:
+                for v in FS_VALID[:4]:
+                    for v2 in FS_VALID[:4]:
                         yield [v, f, v2]
     if level != 'reduced':
         for f in FS_FAIL:
@@ -251,9 +288,11 @@ def _fs_job(job):
     from .core import Partial  # pylint: disable=import-outside-toplevel
     which, override, level, first_op, reference = job
     part = Partial()
+    escalations = 0
     for hist in fs_histories(level):
         if hist[0] != first_op:
             continue
+        del STATE_CHANGES[:]
         res = run_fs_history(hist, which, override, reference)
         part.evaluations += 1
         part.states += 1
@@ -263,6 +302,24 @@ def _fs_job(job):
         case = {'fs_history': hist, 'builder': which, 'override': override}
         for key, what in res:
             part.violation(key, what, case)
+        if STATE_CHANGES and not res and escalations < 4 and len(hist) <= 3:
+            # ESCALATION: this history left something behind at module / class level: every continuation by one operation and
+            # by the same operation twice is explored as well
+            escalations += 1
+            part.extra['histories_that_changed_module_state'] += 1
+            part.extra.setdefault('module_state_attributes', 0)
+            for op in FS_OPS:
+                for tail in ([op], [op, op]):
+                    longer = hist + tail
+                    res2 = run_fs_history(longer, which, override, reference)
+                    part.evaluations += 1
+                    part.states += 1
+                    part.transitions += len(longer)
+                    part.nontrivial += 1
+                    part.outcome('failure-stages:escalated')
+                    for key, what in res2:
+                        part.violation(key, what + ' | explored because module state changed: ' + STATE_CHANGES[0][0],
+                                       {'fs_history': longer, 'builder': which, 'override': override})
     return part
 
 
@@ -295,11 +352,11 @@ def run_fs_history(hist, which, override, reference, per_op_snapshots=False):
                 got = fs_outcome(builder, target)
                 want = reference['+'.join(assigned) + f'|{override}'] if len(assigned) <= 2 else got
             else:
-                got = fs_outcome(builder, world.cfgs[op] if op != 'V0' else world.cfgs['V0'])
-                want = reference[f'{op}|{override}']
-                if op == 'V0' and any(o.startswith('A-') for o in hist[:i]):
-                    want = reference['+'.join([o for o in hist[:i] if o.startswith('A-')][-2:] + ['V0']) + f'|{override}'] \
-                        if len([o for o in hist[:i] if o.startswith('A-')]) <= 2 else got
+                got = fs_outcome(builder, world.cfgs[op])
+                want = reference[f'{"V0" if op == "V-nested" else op}|{override}']
+                earlier = [o for o in hist[:i] if o.startswith('A-')]
+                if op in ('V0', 'V1') and earlier:
+                    want = reference['+'.join(earlier + [op]) + f'|{override}'] if len(earlier) <= 2 else got
             if got != want:
                 if got[0] == 'EXC' or want[0] == 'EXC':
                     key = f'after-failed-builds:outcome-differs-from-fresh-process:{got[1] if got[0] == "EXC" else "OK"}'
@@ -322,9 +379,10 @@ def run_fs_history(hist, which, override, reference, per_op_snapshots=False):
                 before = after
             digest = module_globals_digest()
             if digest != pristine:
+                # hidden module / class level state is no violation by itself (a transparent cache is allowed): it is recorded and
+                # makes the caller explore longer histories from here (see escalate)
                 diff = ['.'.join(x for x in a[:3] if isinstance(x, str)) for a, b in zip(pristine, digest) if a != b][:3]
-                out.append((f'after-failed-builds:module-state-changed:{diff[0] if diff else "new-attribute"}',
-                            f'after op {i} ({op}): {diff} | history={hist} builder={which} indent override={override}'))
+                STATE_CHANGES.append((diff[0] if diff else 'new-attribute', list(hist[:i + 1])))
                 pristine = digest
     finally:
         fs_set_override(None if old == 4 else old)
